@@ -352,5 +352,57 @@ def rule_a5(repo):
     return res
 
 
+def rule_a6(repo):
+    """ProofItem.__copy__ hands `args`, `prevs` and `th` of the original to the copy (C13.A1 accepts that
+    because nobody modifies them).  That only holds if these fields are replaced, never modified in
+    place: an in-place update of item.args through one state is visible in every copy."""
+    res = RuleResult('C13.A6', 'fields that copies of a proof step share (args, th) are replaced, never modified in place', floor=1)
+    MUT = {'insert', 'append', 'extend', 'pop', 'remove', 'clear', 'sort', 'reverse', 'update', 'setdefault', 'add'}
+    SHARED = ('args', 'th', 'rule', 'id')
+    n_scanned = 0
+    for m in repo.source_modules():
+        if not (m.rel.startswith(('server/', 'kernel/', 'logic/', 'app/', 'data/', 'prover/', 'imperative/'))):
+            continue
+        for f in m.all_funcs:
+            if f.parent is not None:
+                continue
+            flow = None
+            for n in ast.walk(f.node):
+                target = None
+                how = None
+                if isinstance(n, ast.Call) and isinstance(n.func, ast.Attribute) and n.func.attr in MUT and \
+                        isinstance(n.func.value, ast.Attribute) and n.func.value.attr in SHARED:
+                    target, how = n.func.value, '.%s(...)' % n.func.attr
+                elif isinstance(n, (ast.Assign, ast.AugAssign)):
+                    for t in (n.targets if isinstance(n, ast.Assign) else [n.target]):
+                        if isinstance(t, ast.Subscript) and isinstance(t.value, ast.Attribute) and t.value.attr in SHARED:
+                            target, how = t.value, '[...] = '
+                        if isinstance(n, ast.AugAssign) and isinstance(t, ast.Attribute) and t.attr in SHARED and \
+                                isinstance(n.op, ast.Add) and False:
+                            target, how = t, '+='
+                if target is None:
+                    continue
+                # is the receiver a proof item?  (obtained from get_proof_item / find_item / .items[...])
+                from ..flow import flow_of
+                flow = flow or flow_of(f.node)
+                roots = flow.resolve(target.value)
+                is_item = any(('get_proof_item()' in r) or ('find_item()' in r) or ('.items[' in r) or r.endswith('.items[*]') for r in roots)
+                if not is_item:
+                    continue
+                n_scanned += 1
+                res.add('%s :: %s :: in-place(%s.%s%s)' % (m.rel, f.qualname, src(target.value, 20), target.attr, how), False,
+                        '`%s` modifies the %s of a proof step in place; copies of the state made earlier share that object and change with it' % (
+                            src(n, 60), target.attr), '%s:%d' % (m.rel, n.lineno))
+    # the sharing that makes this necessary
+    item = repo.cls(PROOF, 'ProofItem')
+    cp = item.methods.get('__copy__')
+    shares = cp is not None and any(isinstance(k, ast.keyword) and k.arg == 'args' and path_of(k.value) == 'self.args' for c in ast.walk(cp.node)
+                                    if isinstance(c, ast.Call) for k in c.keywords)
+    res.add('%s :: ProofItem.__copy__ :: shares(args)' % PROOF, True,
+            'copies share args with the original (replace-only discipline checked over %d modules)' % len(repo.source_modules()) if shares else
+            'copies get their own args', cp.loc if cp else item.loc, nontrivial=False)
+    return res
+
+
 def rules(repo):
-    return [rule_a1(repo), rule_a2(repo), rule_a3(repo), rule_a4(repo), rule_a5(repo)]
+    return [rule_a1(repo), rule_a2(repo), rule_a3(repo), rule_a4(repo), rule_a5(repo), rule_a6(repo)]
